@@ -2,11 +2,13 @@
 //! Every subcommand reads scenario lines (spec -> impl) or writes NDJSON traces (impl -> spec).
 //! A panic in code under test is data: it is caught and reported as an outcome, never a tool error.
 
+mod c04;
 mod c10;
 mod c11;
 mod refcodec;
 mod refvmess;
 mod ssudp;
+mod stream;
 mod sut;
 mod util;
 
@@ -18,6 +20,8 @@ fn main() {
     }
     let rest = &args[2..];
     let res = match args[1].as_str() {
+        "c04-replay" => c04::replay(rest),
+        "c04-record" => c04::record(rest),
         "c10-replay" => c10::replay(rest),
         "c10-record" => c10::record(rest),
         "c11-replay" => c11::replay(rest),
